@@ -225,6 +225,52 @@ def run_triple(ns, kits, kit, vname, mname, nname, rng, chain_len, tlen, ids="di
     return vec, mods, targets, N
 
 
+# the vector types that receive a module type at the next level of its kit (entries -> cassette vectors -> device vectors, and
+# the loop of CIDAR / EcoFlex: a device is a module of the cassette level's enzyme again)
+NEXT_VECTORS = {"YTKEntry": ("YTKCassetteVector",), "YTKCassette": ("YTKDeviceVector",),
+                "CIDAREntry": ("CIDARCassetteVector",), "CIDARCassette": ("CIDARDeviceVector",), "CIDARDevice": ("CIDARCassetteVector",),
+                "EcoFlexEntry": ("EcoFlexCassetteVector",), "EcoFlexCassette": ("EcoFlexDeviceVector",), "EcoFlexDevice": ("EcoFlexCassetteVector",),
+                "MoCloEntry": ("MoCloCassetteVector", "MoCloSingleCassetteVector"), "MoCloCassette": ("MoCloDeviceVector",)}
+
+
+def assemble_at_next_level(prod, N, kits, kit, CircularRecord, Seq, label, viol, seed):
+    """"Such a product can itself be assembled at the next level": the product, typed as N, goes into every vector type of the
+    kit that receives N at the next level (NEXT_VECTORS), built around its overhangs"""
+    import sys
+    core = sys.modules["moclo.core"]
+    rng = random.Random(seed)
+    ent = N(prod)
+    try:
+        if not ent.is_valid():
+            return 0
+        o5, o3 = str(ent.overhang_start()).upper(), str(ent.overhang_end()).upper()
+    except Exception:
+        return 0          # (acceptance is check_next_level's business)
+    if o5 == o3 or gen.rc(o5) in (o5, o3) or gen.rc(o3) == o3:
+        return 0
+    done = 0
+    for wname in NEXT_VECTORS.get(N.__name__, ()):
+        W = getattr(kits[kit], wname, None)
+        if not (isinstance(W, type) and issubclass(W, core.AbstractVector) and W.cutter is N.cutter):
+            continue
+        try:
+            ws = shape_of(W.structure())
+        except Exception:
+            continue
+        if not (iupac_ok(ws["F1"], o5) and iupac_ok(ws["F3"], o3)):
+            continue      # this vector type fixes other overhangs
+        wtext = instance_with(W.structure(), o5, o3, rng, 6, sites_of(W))
+        wvec = W(CircularRecord(Seq(wtext), id="next_vec", name="next_vec"))
+        if not wvec.is_valid() or str(wvec.overhang_start()).upper() != o3 or str(wvec.overhang_end()).upper() != o5:
+            continue      # generator artefact
+        got, prod2, _ = ba.run_assembly(wvec, [ent], id="next", name="next")
+        done += 1
+        if got[0] != "product":
+            viol.append(dict(name="assemble_next_%s_%s" % (label, wname), what="%s: the product, typed as %s, cannot be assembled into a %s built around its "
+                             "overhangs %s/%s: %r" % (label, N.__name__, wname, o5, o3, got), case=dict(product=str(prod.seq), next=N.__name__, vector=wtext)))
+    return done
+
+
 def iupac_ok(word, text):
     return len(word) == len(text) and all(t in gen.IUPAC[w] for w, t in zip(word, text))
 
@@ -352,7 +398,8 @@ def bounded(ctx):
                 nsite = be.enzyme_geometry(N.cutter)[0]
                 if len(be.occurrences(s, nsite)) > 1 or len(be.occurrences(s, gen.rc(nsite))) > 1:   # MORE than the design provides
                     continue
-                check_next_level(prod, targets, N, CircularRecord, Seq, label.replace(" ", "_"), viol)
+                if check_next_level(prod, targets, N, CircularRecord, Seq, label.replace(" ", "_"), viol):
+                    evals += assemble_at_next_level(prod, N, kits, kit, CircularRecord, Seq, label.replace(" ", "_"), viol, ctx.seed + len(s))
                 if len(samples) < 3:
                     samples.append(dict(triple=label, product_length=len(s)))
     # every rotation of the vector plasmid (the origin inside each flank, site, overhang and the placeholder): products
